@@ -97,6 +97,7 @@ def check_property(pid: str, spec: dict, root: str, tier: str, seed: int,
     t0 = time.time()
     os.makedirs(os.path.join(EVID, "replay"), exist_ok=True)
     evpath = os.path.join(EVID, f"{pid}.json")
+    os.environ["SA_TIER"] = tier
     try:
         repo = Repo(root)
         obs = run_rules(repo, spec["rules"])
